@@ -32,8 +32,12 @@ def obs_of(resp, rowinv):
                 "panic": resp["panic"], "stage": resp.get("stage")}
     st = resp.get("stage")
     if st in ("parse", "lint"):
-        return {"status": "reject", "out": [], "code": 0, "estmt": 0, "stack": [],
-                "stage": st, "error": resp.get("error")}
+        err = resp.get("error") or {}
+        dbg = str(err.get("dbg"))
+        code = 6 if dbg == "Overflow" else 11 if dbg == "DivisionByZero" else 0
+        pos = err.get("pos") or [0, 0]
+        return {"status": "reject", "out": [], "code": code, "estmt": rowinv.get(pos[0], -1), "stack": [],
+                "stage": st, "error": err}
     out = codes(resp.get("stdout", ""))
     oc = resp.get("outcome", {})
     if oc.get("k") == "ok":
